@@ -239,13 +239,25 @@ def check_logs(w, rep, tier):
                 want = cm.vertcat(cm.matmul(Ji, w.sl(xp, 0, 3)), cm.matmul(Ji, w.sl(xp, 3, 6)), w.param(om))
                 verdict(rep, "C03.form", "%s.log = (J_l^-1 p, J_l^-1 v, omega), omega = log(R)" % nm, closed(w, L), closed(w, want), (), w.method_where(G, "log")[:2],
                         "SE_2(3) log does not apply the inverse left Jacobian of the rotation log to p and v in algebra order")
-    # ---- direct product
-    G = w.it.binop(ast.Mult(), w.G("SO3Mrp"), w.G("R3"), None)
-    X, xp = w.fresh(G, "X")
-    ok, L = guarded(w, rep, "C03.direct-product", "SO3Mrp*R3 log", lambda: w.param(w.call(X, "log")))
-    if ok:
-        want = cm.vertcat(w.param(w.call(w.elem(w.G("SO3Mrp"), w.sl(xp, 0, 3)), "log")), w.param(w.call(w.elem(w.G("R3"), w.sl(xp, 3, 6)), "log")))
-        verdict(rep, "C03.direct-product", "SO3Mrp*R3: log is factor-wise on the factors' slices, in order", L, want, (), w.method_where(G, "log")[:2], "direct-product log is not factor-wise")
+    # ---- direct products: factors whose group and algebra dimensions differ (quaternion 4/3) come first, so that an
+    # offset table built from the wrong dimension shows; three factors, so that a non-cumulative table shows
+    for names in (["SO3Mrp", "R3"], ["SO3Quat", "R3"], ["SE2", "SO3Quat", "R3"]):
+        label = "*".join(names)
+        G = w.G(names[0])
+        for nm in names[1:]:
+            G = w.it.binop(ast.Mult(), G, w.G(nm), None)
+        X, xp = w.fresh(G, "X")
+        ok, L = guarded(w, rep, "C03.direct-product", "%s log" % label, lambda: w.param(w.call(X, "log")))
+        okE, Ex = guarded(w, rep, "C03.direct-product", "%s exp" % label, lambda: w.param(w.call(G, "exp", w.elem(w.attr(G, "algebra"), w.sym("x", w.attr(w.attr(G, "algebra"), "n_param"))))))
+        if ok:
+            parts, off = [], 0
+            for nm in names:
+                F = w.G(nm)
+                k = w.attr(F, "n_param")
+                parts.append(w.param(w.call(w.elem(F, w.sl(xp, off, off + k)), "log")))
+                off += k
+            verdict(rep, "C03.direct-product", "%s: log is factor-wise on the factors' own slices, in order" % label, L, cm.vertcat(*parts), (), w.method_where(G, "log")[:2],
+                    "direct-product log is not factor-wise")
 
 
 def check_shadow_flow(w, rep):
@@ -284,6 +296,9 @@ def run(w, rep, tier):
     # selections must be a right inverse of to_Matrix (rule shared with C07; seeded C03-5 flipped one sign in one branch)
     from .c07 import check_from_matrix
     check_from_matrix(w, rep, R="C03.flow", RV="C03.flow", RS="C03.flow")
+    # independence of log from the representation holding X needs SO3Mrp.from_Quat to keep the rotation for both signs of q0
+    from .c07 import check_pairs
+    check_pairs(w, rep, tier, only={("SO3Quat", "SO3Mrp")}, RP="C03.flow", RA="C03.API")
     rep.floor("C03.API", 12)
     rep.floor("C03.form", 5)
     rep.undecided_clause("exp(log X) = X and log(exp x) = x for the SO(3) parameterisations (composition of trigonometric and inverse trigonometric maps)")
